@@ -22,6 +22,7 @@ import (
 	"sort"
 	"strings"
 	"sync"
+	"syscall"
 	"time"
 
 	"github.com/google/uuid"
@@ -406,13 +407,24 @@ func c04Response(r *Run, c *c04ctx) {
 	_ = strings.Join
 }
 
-// hangGuard: a decode that does not return within 4 s of real time ends the
-// worker with a line the driver turns into a violation (the input is attributed).
+// hangGuard: a decode that has burnt more than 3 s of this process's CPU time (or
+// 60 s of real time) without returning ends the worker with a line the driver
+// turns into a violation (the input is attributed). CPU time, not wall time: on a
+// loaded machine a worker may not be scheduled for seconds.
 var hangMu sync.Mutex
 var hangWhat string
 var hangInput []byte
 var hangSince time.Time
+var hangCPU time.Duration
 var hangOnce sync.Once
+
+func cpuTime() time.Duration {
+	var ru syscall.Rusage
+	if syscall.Getrusage(syscall.RUSAGE_SELF, &ru) != nil {
+		return 0
+	}
+	return time.Duration(ru.Utime.Nano() + ru.Stime.Nano())
+}
 
 func hangGuard(what string, input []byte) {
 	hangOnce.Do(func() {
@@ -420,10 +432,10 @@ func hangGuard(what string, input []byte) {
 			for {
 				time.Sleep(250 * time.Millisecond)
 				hangMu.Lock()
-				w, in, since := hangWhat, hangInput, hangSince
+				w, in, since, cpu0 := hangWhat, hangInput, hangSince, hangCPU
 				hangMu.Unlock()
-				if w != "" && time.Since(since) > 4*time.Second {
-					fmt.Fprintf(os.Stderr, "VERIF-HANG class=C04:hang:%s:%s detail=%s, input %q (%d bytes) did not finish decoding within 4s\n", where(w), cause(in), w, clip(in, 160), len(in))
+				if w != "" && (cpuTime()-cpu0 > 3*time.Second || time.Since(since) > 60*time.Second) {
+					fmt.Fprintf(os.Stderr, "VERIF-HANG class=C04:hang:%s:%s detail=%s, input %q (%d bytes) did not finish decoding within 3s of CPU time\n", where(w), cause(in), w, clip(in, 160), len(in))
 					os.Exit(97)
 				}
 			}
@@ -431,5 +443,8 @@ func hangGuard(what string, input []byte) {
 	})
 	hangMu.Lock()
 	hangWhat, hangInput, hangSince = what, input, time.Now()
+	if what != "" {
+		hangCPU = cpuTime()
+	}
 	hangMu.Unlock()
 }
